@@ -2,6 +2,7 @@ import LlirProofs.CoreLemmas
 import LlirProofs.Props.C06
 import LlirModel.CallSite
 import LlirProofs.TyParseMain
+import LlirProofs.Core2Mod
 /-! # C03 — IR built through the constructors prints to valid, faithful LLVM assembly (property theorems only)
 
 PARTIAL: the printing/re-parsing theorem covers constructor images inside M-Core (modules built with
@@ -26,6 +27,13 @@ theorem constructed_prints_faithfully (useHex : Int → Bool) (ts : List Bytes) 
 theorem constructor_accepts_well_typed (k : Typing.Kind) (ops : List Types.Ty) (t : Types.Ty)
     (hw : Typing.LLVMSpec.wellTyped k ops = true) (h : Typing.LLVMSpec.resultType k ops = some t) :
     Typing.resultIR k ops = .ok t := Props.C06.ir_agrees_with_llvm k ops t hw h
+
+/-- Constructed modules of the second fragment (Module.NewTypeDef with a struct body, Module.NewGlobalDef with
+    nested constant.NewStruct / NewArray / NewVector / NewInt / NewNull / NewUndef / NewZeroInitializer values)
+    print to a text the parser maps back to exactly what was constructed. -/
+theorem constructed_prints_faithfully2 (useHex : Int → Bool) (m : Core2.Mod) (h : Core2.WF m) :
+    Core2.translateTok (Core2.printTok useHex m) = some ⟨Core2.sortDefs m.typedefs, m.globals⟩ :=
+  Core2.core2_roundtrip useHex m h
 
 /-! ## call sites denote the callee they were constructed with -/
 
